@@ -10,26 +10,38 @@ open AL
 /-- `types.MaxBlockSubmissionsKeepInState` : the newest records exported per registration -/
 def exportCap : Nat := 20000
 
-def sortNat (xs : List Nat) : List Nat := xs.mergeSort (· ≤ ·)
+def sortNat (xs : List Nat) : List Nat := isort xs
+
+/-- the keys exported for registration `id`: the newest `exportCap` of the retained ones, ascending -/
+def keptKeys (r : RegState) (id : Nat) : List Nat :=
+  let ks := r.retained id                               -- ascending
+  ks.drop (ks.length - exportCap)
+
+/-- copy record `(id, k)` (if any) from `r` into `rs` -/
+def collectRec (r : RegState) (id : Nat) (rs : List ((Nat × Nat) × Rec)) (k : Nat) : List ((Nat × Nat) × Rec) :=
+  match find? r.recs (id, k) with
+  | some rc => insert rs (id, k) rc
+  | none => rs
+
+/-- the counters `InitGenesis` recomputes from the exported records -/
+def recount (r : RegState) (id : Nat) (m : RegMeta) : RegMeta :=
+  { m with num := (keptKeys r id).length, lowest := (keptKeys r id).headD 0 }
+
+def limitOr0 (r : RegState) (id : Nat) : Nat :=
+  match find? r.limits id with | some l => l | none => 0
+
+/-- export + import of registration `id` -/
+def importRegStep (r : RegState) (acc : RegState) (id : Nat) : RegState :=
+  match find? r.regs id with
+  | none => acc
+  | some m =>
+    { acc with regs := insert acc.regs id (recount r id m), limits := insert acc.limits id (limitOr0 r id),
+               recs := (keptKeys r id).foldl (collectRec r id) acc.recs }
 
 /-- export + import of one registry module: registrations with counters recomputed from the exported
 records, the limit as read from the limit store (0 when none), the newest `exportCap` records -/
 def importReg (r : RegState) : RegState :=
-  let ids := sortNat (keys r.regs)
-  let step (acc : RegState) (id : Nat) : RegState :=
-    match find? r.regs id with
-    | none => acc
-    | some m =>
-      let ks := r.retained id                               -- ascending
-      let kept := ks.drop (ks.length - exportCap)           -- the newest `exportCap`
-      let m' := { m with num := kept.length, lowest := kept.headD 0 }
-      let recs := kept.foldl (fun (rs : List ((Nat × Nat) × Rec)) k =>
-        match find? r.recs (id, k) with
-        | some rc => insert rs (id, k) rc
-        | none => rs) acc.recs
-      { acc with regs := insert acc.regs id m', limits := insert acc.limits id (match find? r.limits id with | some l => l | none => 0),
-                 recs := recs }
-  ids.foldl step { kind := r.kind, params := r.params, nextId := r.nextId }
+  (sortNat (keys r.regs)).foldl (importRegStep r) { kind := r.kind, params := r.params, nextId := r.nextId }
 
 /-- copy the entry of `id` (if any) from `m` into `acc` -/
 def collectStep {ν : Type} (m : List (Nat × ν)) (acc : List (Nat × ν)) (id : Nat) : List (Nat × ν) :=
